@@ -240,12 +240,15 @@ def run(tier, seed):
         PID, tier, seed, "Fastor.C20.map_is_alias", "FastorModel.Model.MapAlias / FastorModel.Model.Layout", _only(sym_groups), _only(real_groups),
         assumptions=["vector primitives are lane-wise (C08); element-wise expression evaluation is C02's model (imported, with is_aligned = false for maps)",
                      "operations through maps that are modelled: element write, fill, compound assignment with a scalar / a tensor / an expression, plain assignment of an "
-                     "element-wise expression, assignment from the other name, same-type copy assignment, reading into an owning tensor; views, reductions and "
-                     "evaluation-requiring right-hand sides through maps are value-tested on the real types only",
+                     "element-wise expression, assignment from the other name, same-type copy assignment, reading into an owning tensor; views, reductions, scalar "
+                     "assignment, products / transposes / permute / einsum / inverse with a map as argument or destination, compound lazy products, const maps, "
+                     "squeeze / reshape / flatten of maps are value-tested on the real types against a plain-array oracle (harness/map_wide.h), not in the Lean model",
                      "real-type runs use small integer values (exact in float/double, no integer overflow)"],
         rule="layout: every shape of rank 1-4 with extents <= 4 x {tocolumnmajor, torowmajor} + sampled "
              "round trips / constructors / map sources / nested initializer lists / seeded rank 5-6; mapops: seeded (kind, source shape, map shape of equal size, "
-             "operation sequence of length 1-6 alternating between the names) per (ISA, element size); non-trivial = rank >= 2 resp. at least two operations",
+             "operation sequence of length 1-6 alternating between the names) per (ISA, element size); real types per (ISA, type): misalignment sweep, constructors / converters / "
+             "lists with ranks stratified over the types (every ISA sees ranks 1-5), staged right-hand sides, 16-statement view/reduction program through map and source, "
+             "19 linear-algebra statements, squeeze/reshape/flatten shapes with unit extents in every position; non-trivial = rank >= 2 resp. at least two operations",
         nontrivial=nontrivial, per_tu=80)
 
 def sym_call_of(inp):
